@@ -136,9 +136,48 @@ def small_docs(keys, depth):
     return out
 
 
+def enum_aliases(ctx, yaml, yatiml):
+    """an enum with alias members (warning = 2; warn = 2): a document may name a member by any of its
+    names and gets the one member"""
+    import enum
+    from typing import Dict, List, Union
+
+    class Level(enum.Enum):
+        info = 1
+        warning = 2
+        warn = 2
+        error = 3
+        err = 3
+
+    class Msg:
+        def __init__(self, level: Level, text: str = '') -> None:
+            self.level = level
+            self.text = text
+    for name in ('info', 'warning', 'warn', 'error', 'err', 'fatal', 'Warn'):
+        want = Level.__members__.get(name)
+        for ty, text, get in ((Level, name, lambda v: v), (List[Level], '[info, %s]' % name, lambda v: v[1]),
+                              (Dict[str, Level], '{k: %s}' % name, lambda v: v['k']),
+                              (Msg, '{level: %s}' % name, lambda v: v.level),
+                              (Union[Level, int], name, lambda v: v)):
+            try:
+                got = ('ok', get(yatiml.load_function(ty, Level, Msg)(text)))
+            except (yatiml.RecognitionError, yaml.YAMLError):
+                got = ('rec', None)
+            except Exception as e:  # noqa
+                got = ('other', type(e).__name__)
+            ctx.case(('enum-alias', name, repr(ty)), nontrivial=True)
+            ctx.count('enum_alias:' + got[0])
+            ok = (got == ('ok', want)) if want is not None else got[0] == 'rec'
+            if not ok:
+                ctx.violation('{!r} as {}: load gives {} {!r}, the enum has {}'.format(
+                    text, getattr(ty, '__name__', ty), got[0], got[1], want if want is not None else 'no such member'),
+                    dict(key='enum-alias:{}:{}'.format(name, got[0]), text=text))
+
+
 def explore(ctx):
     yaml, yatiml = L.setup()
     rng = ctx.rng
+    enum_aliases(ctx, yaml, yatiml)
     cases = LC.CaseBuffer(ctx)
     import itertools
     from props import c17
